@@ -455,6 +455,16 @@ Definition run_c20 (code : Z) (ps : list Z) (vs : list (list Z)) : option (list 
       | None => None
       | Some _ => Some [[1]]
       end
+  | 20013 =>  (* [be, mode, seed, w_1 .. w_k]: calls with per-call parameter codes w_i on ONE shared immutable module + key;
+                 mode 0: one thread performs them in order, mode >= 1: one thread per call.  The key is data baked into g
+                 (here: call parameters -> result), slot i receives the result of call i; flag = result is the solo result *)
+      let ws := map Z.to_nat (skipn 3 ps) in
+      let calls := combine (seq 0 (length ws)) ws in
+      let w := if p ps 1 =? 0 then [calls] else map (fun c => [c]) calls in
+      match run_rev w idg (fun _ => -2) with
+      | None => None
+      | Some st => Some [map (fun c => if outs Z unit st (fst c) =? Z.of_nat (snd c) then 1 else 0) calls; [1]]
+      end
   | _ => run_c20_hook code ps vs
   end.
 
@@ -570,6 +580,7 @@ Definition oracle_c20 (code : Z) (ps : list Z) (vs outs : list (list Z)) : Z :=
              | _ => false
              end)
   | 20007 => ob (list_eqb (v outs 0) [1])
+  | 20013 => ob (list_eqb (v outs 0) (repeat 1 (length ps - 3)) && list_eqb (v outs 1) [1] && Nat.ltb 3 (length ps))
   | _ => 2
   end.
 
